@@ -29,6 +29,10 @@ def _alarm(signum, frame):
     raise CaseTimeout()
 
 
+def too_many_timeouts(limit=4):
+    return _TIMEOUTS[0] >= limit
+
+
 def _budget(seconds):
     # once a case has run into the alarm in this worker, later cases get a short budget: code that hangs, hangs again, and the
     # check is failing already (normal cases take milliseconds)
@@ -77,6 +81,8 @@ def glob_vs_spec(item):
     cyclic = trees.is_cyclic(spec)
     with trees.Tree(spec) as t:
         for els, flags in cases:
+            if too_many_timeouts():
+                break          # this worker has hit the alarm repeatedly: the violations are reported, the rest is not run
             txt = P.render(els)
             follow = bool(flags & G.L)
             if cyclic and (follow or (flags & G.GL and '***' in txt)):
@@ -142,6 +148,8 @@ def globmatch_vs_glob(item):
         ents = t.entries_through_links()
         fd = os.open(t.root, os.O_RDONLY | os.O_DIRECTORY)
         for idx, (els, flags, excl) in enumerate(cases):
+            if too_many_timeouts():
+                break          # this worker has hit the alarm repeatedly: the violations are reported, the rest is not run
             txt = P.render(els)
             follow = bool(flags & G.L)
             if cyclic and (follow or (flags & G.GL and '***' in txt)):
@@ -201,6 +209,8 @@ def wellformed_and_roots(item):
     cwd0 = os.getcwd()
     with trees.Tree(spec) as t:
         for txt, flags in cases:
+            if too_many_timeouts():
+                break          # this worker has hit the alarm repeatedly: the violations are reported, the rest is not run
             follow = bool(flags & G.L)
             if cyclic and (follow or (flags & G.GL and '***' in txt)):
                 continue
@@ -259,6 +269,8 @@ def multi_pattern(item):
     out = []
     with trees.Tree(spec) as t:
         for pats, excl, flags, inline in cases:
+            if too_many_timeouts():
+                break          # this worker has hit the alarm repeatedly: the violations are reported, the rest is not run
             base = dict(tree=tname, pattern=str(pats), exclude=str(excl), flags=flags, fl=LC.flagnames(flags), inline=inline)
             try:
                 f = flags | G.U
@@ -305,6 +317,8 @@ def symlink_discipline(item):
         ndirs = 1 + sum(1 for e in t.entries() if os.path.isdir(os.path.join(t.root, e)) and not os.path.islink(os.path.join(t.root, e)))
         real_scandir = os.scandir
         for txt, flags in cases:
+            if too_many_timeouts():
+                break          # this worker has hit the alarm repeatedly: the violations are reported, the rest is not run
             follow = bool(flags & G.L)
             base = dict(tree=tname, pattern=txt, flags=flags, fl=LC.flagnames(flags))
             if cyclic and (follow or (flags & G.GL and '***' in txt)):
